@@ -348,6 +348,15 @@ fn sde(w: &[&str]) -> String {
         "ignored" => go!(serde::de::IgnoredAny, |_| "()".to_string()),
         "picky" => go!(Picky, |v: Picky| v.0),
         "borrowed" => go!(Borrowed, |v: Borrowed| v.0),
+        // a visitor that returns without reading its array / map to the end, then one more value from the same Deserializer
+        "first" | "firstm" => {
+            let r = if w[0] == "first" { First::deserialize(&mut de).map(|f| f.0) } else { FirstM::deserialize(&mut de).map(|f| f.0) };
+            let p1 = de.decoder().position();
+            let r2 = u8::deserialize(&mut de);
+            let p2 = de.decoder().position();
+            format!("{} {} then {} {}", match r { Ok(v) => format!("ok {}", v), Err(e) => format!("err {}", sclass(&e.to_string())) }, p1,
+                    match r2 { Ok(v) => format!("ok {}", v), Err(e) => format!("err {}", sclass(&e.to_string())) }, p2)
+        }
         "borrowed2" => go!((Borrowed, Borrowed), |v: (Borrowed, Borrowed)| format!("[{},{}]", (v.0).0, (v.1).0)),
         "picky2" => go!((Picky, Picky), |v: (Picky, Picky)| format!("[{},{}]", (v.0).0, (v.1).0)),
         "opt_tup" => go!(Option<(u8, u8)>, |v: Option<(u8, u8)>| match v { None => "N".to_string(), Some(x) => format!("S([{},{}])", x.0, x.1) }),
@@ -426,6 +435,27 @@ impl<'de> serde::de::Visitor<'de> for BorrowedVisitor {
 }
 impl<'de> serde::Deserialize<'de> for Borrowed {
     fn deserialize<D: serde::Deserializer<'de>>(d: D) -> Result<Self, D::Error> { d.deserialize_any(BorrowedVisitor) }
+}
+
+/// visitors that stop early: the first element of an array / the first entry of a map, the rest is left where it is
+struct First(String);
+struct FirstM(String);
+struct FirstVisitor(bool);
+impl<'de> serde::de::Visitor<'de> for FirstVisitor {
+    type Value = String;
+    fn expecting(&self, f: &mut core::fmt::Formatter) -> core::fmt::Result { f.write_str("an array or a map") }
+    fn visit_seq<A: serde::de::SeqAccess<'de>>(self, mut a: A) -> Result<String, A::Error> {
+        Ok(match a.next_element::<u8>()? { Some(x) => format!("S({})", x), None => "N".into() })
+    }
+    fn visit_map<A: serde::de::MapAccess<'de>>(self, mut a: A) -> Result<String, A::Error> {
+        Ok(match a.next_entry::<u8, u8>()? { Some((k, v)) => format!("S({}:{})", k, v), None => "N".into() })
+    }
+}
+impl<'de> serde::Deserialize<'de> for First {
+    fn deserialize<D: serde::Deserializer<'de>>(d: D) -> Result<Self, D::Error> { d.deserialize_seq(FirstVisitor(false)).map(First) }
+}
+impl<'de> serde::Deserialize<'de> for FirstM {
+    fn deserialize<D: serde::Deserializer<'de>>(d: D) -> Result<Self, D::Error> { d.deserialize_map(FirstVisitor(true)).map(FirstM) }
 }
 
 /// serialises through `Serializer::collect_str` (which needs `alloc`: documented)
